@@ -368,6 +368,8 @@ PROPS = {
                  common=dict(split=4, maxruns=400000)),
             dict(h='mqconc', mode='enum', what='ISR at every-access granularity, 3 nested senders x 1 msg, depth 1', params=dict(mode=1, roles=0, depth=1, senders=3, msgs=1, retries=0, every_access=1, oracle=4),
                  common=dict(split=4, maxruns=400000)),
+            dict(h='mqconc', mode='enum', what='ISR, 4 senders of rising priority nested to depth 3, depth 1', params=dict(mode=1, roles=0, depth=1, senders=4, msgs=1, retries=0, nest=3, oracle=4),
+                 common=dict(split=4, maxruns=600000)),
             dict(h='mqconc', mode='rc', what='random scenarios and schedules', params=dict(oracle=4),
                  quick=dict(cases=100000, len=400), thorough=dict(cases=4000000, len=400)),
         ],
